@@ -179,9 +179,20 @@ JOBS = [
         inline=['Math::AngRound'], replace=['Math::sincosd', 'Geodesic::A1m1f', 'Geodesic::C1f', 'Geodesic::C1pf', 'Geodesic::A2m1f', 'Geodesic::C2f', 'Geodesic::SinCosSeries',
                  'Geodesic::C3f', 'Geodesic::C4f', 'Geodesic::A3f', 'GeodesicLineExact::LineInit'],
         description='line constants: capability word, stored point, third point undefined'),
-    Job('GeodesicLine.SetDistance', 'GeodesicLine::SetDistance', ['C12'], const_classes=['<Geodesic'], replace=['GeodesicLine::GenPosition'], inline=['Math::NaN'],
+    Job('GeodesicLine.ctor', 'GeodesicLine::GeodesicLine', ['C12', 'C01'], arity=5, select=r'azi1, unsigned caps', const_classes=['<Geodesic'], inline=['Math::AngRound'],
+        replace=['Math::sincosd', ('Math::AngNormalize', dict(ghost=False)), 'GeodesicLine::LineInit'],
+        description='line constructor (point + azimuth): normalised azimuth, capability word, third point undefined'),
+    Job('GeodesicLine.ctor9', 'GeodesicLine::GeodesicLine', ['C12', 'C01'], arity=9, select=r'bool arcmode', cname='GeodesicLine_GeodesicLine9', const_classes=['<Geodesic'],
+        replace=['GeodesicLine::LineInit', 'GeodesicLine::SetDistance', 'GeodesicLine::SetArc'], inline=['GeodesicLine::GenSetDistance'],
+        description='line constructor with third point (DirectLine / ArcDirectLine / InverseLine): the third point is stored through SetDistance / SetArc'),
+    Job('Geodesic.GenDirect', 'Geodesic::GenDirect', ['C12', 'C01', 'C14'], const_classes=['GeodesicLine'],
+        replace=[('GeodesicLine::GeodesicLine', dict(arity=5, select=r'azi1, unsigned caps')), 'GeodesicLine::GenPosition', 'GeodesicExact::GenDirect'],
+        rewrites=[(r'return GeodesicLine\(\*this, lat1, lon1, azi1, outmask\)\s*\.\s*GenPosition\(',
+                   'struct GeodesicLine verif_line; GeodesicLine_GeodesicLine(VERIF_OBJ(verif_line), self, lat1, lon1, azi1, outmask); return GeodesicLine_GenPosition(VERIF_OBJ(verif_line), ')],
+        description='direct problem through a temporary line: DISTANCE_IN supplied automatically, output-mask frame, ranges'),
+    Job('GeodesicLine.SetDistance', 'GeodesicLine::SetDistance', ['C12'], const_classes=['<Geodesic'], replace=[('GeodesicLine::GenPosition', dict(ghost=False))], inline=['Math::NaN'],
         description='third point by distance: NaN arc when the line lacks the capability'),
-    Job('GeodesicLine.SetArc', 'GeodesicLine::SetArc', ['C12'], const_classes=['<Geodesic'], replace=['GeodesicLine::GenPosition'],
+    Job('GeodesicLine.SetArc', 'GeodesicLine::SetArc', ['C12'], const_classes=['<Geodesic'], replace=[('GeodesicLine::GenPosition', dict(ghost=False))],
         description='third point by arc: distance stays NaN when the line lacks the capability'),
     Job('GeodesicLineExact.LineInit', 'GeodesicLineExact::LineInit', ['C12', 'C01', 'C13'], const_classes=['<GeodesicExact'], inline=['Math::AngRound'],
         replace=['Math::sincosd', ('EllipticFunction::Reset', dict(arity=4)), ('EllipticFunction::E', dict(arity=0)), ('EllipticFunction::D', dict(arity=0)), ('EllipticFunction::H', dict(arity=0)),
